@@ -72,6 +72,7 @@ type Step struct {
 	T    string   `json:"t,omitempty"`    // catalogue type name
 	V    int64    `json:"v,omitempty"`    // value seed for the catalogue constructor
 	Doc  []byte   `json:"doc,omitempty"`  // document / text argument
+	Bomb *Bomb    `json:"bomb,omitempty"` // a nesting bomb instead of Doc (expanded by the worker)
 	Opts []string `json:"opts,omitempty"` // option names
 	S1   string   `json:"s1,omitempty"`   // prefix / path text / query text
 	S2   string   `json:"s2,omitempty"`   // indent
@@ -86,9 +87,16 @@ type Step struct {
 	Del    []Deliver `json:"del,omitempty"`
 }
 
+// Bomb describes a deeply nested document: kind 0 "[" x d, 1 {"a": x d, 2 "[" x d "]" x d, 3 {"a": x d 1 "}" x d.
+type Bomb struct {
+	Kind  int `json:"kind"`
+	Depth int `json:"depth"`
+}
+
 // Reader is the script of a simulated io.Reader.
 type Reader struct {
 	Data []byte    `json:"data"`
+	Bomb *Bomb     `json:"bomb,omitempty"`
 	Del  []Deliver `json:"del,omitempty"` // deliveries; when exhausted: rest of data in one piece, then (0, io.EOF)
 }
 
@@ -133,7 +141,9 @@ type Sweep struct {
 	Offset  int    `json:"offset"`
 	Reflect int    `json:"reflect"` // number of reflect-created types mixed in
 	Limit   int    `json:"limit,omitempty"`
-	Only    []int  `json:"only,omitempty"` // explicit type indices (replay/shrink)
+	Only    []int  `json:"only,omitempty"` // explicit type indices (replay/shrink/cold reference)
+	OnlyR   []int  `json:"only_r,omitempty"` // explicit reflect-created type indices (cold reference)
+	Exclude []int  `json:"exclude,omitempty"` // types that die even alone in a fresh process (filled by the driver)
 }
 
 func (p *Plan) Hash() string {
